@@ -679,6 +679,125 @@ def gen_timeline_tick(cls):
     return "\n\n".join(b.aux), term, lines_of(fn)
 
 
+
+# ---- Track.tick (the non-interpolating branch) ------------------------------------------------------------------------------------
+TRACK_ADVANCE = "self.current_time, self._tick_grid = advance_on_tick_grid(self.current_time, self.timeline.ticks_per_beat, self._tick_grid)"
+NON_INTERPOLATING = "self.interpolate is None or self.interpolate == INTERPOLATION_NONE"
+
+
+class TrackTickBlock(TBlock):
+    """Track.tick up to the end of the try body: result (self, calls, n, ticked), the shape of Model.v track_tick_a.
+    self.current_event is not a field of the model's record: it is the variable `current_event : option event` (None = the
+    value an earlier tick left there, which this branch never reads: the loop that assigns it runs at least once because
+    the `if` around it has the same test - checked)."""
+
+    def outcome(self, env, what):
+        return "(%s, %s, n, %s)" % (env["self"][1], env["calls"][1], what)
+
+    def on_return(self, v, env):
+        if v[0] != "none" or self.in_try:
+            raise Reject("return not understood")
+        return self.outcome(env, "TNotStarted")
+
+    in_try = 0
+    guard = None
+
+    def special_expr(self, n, env):
+        if isinstance(n, ast.Call) and isinstance(n.func, ast.Name) and n.func.id == "float" and len(n.args) == 1 and not n.keywords:
+            a = self.ex(n.args[0], env)
+            if a[0] != "time":
+                raise Reject("float() of a %s" % a[0])
+            return a
+        if isinstance(n, ast.Attribute) and ast.unparse(n.value) == "self.current_event" and n.attr == "duration":
+            ev = env.get("self.current_event")
+            if ev is None or ev[0] != "event":
+                raise Reject("self.current_event is read before it is assigned")
+            return ("time", "(e_dur %s)" % ev[1])
+        return TBlock.special_expr(self, n, env)
+
+    def special_assigned(self, st):
+        if isinstance(st, (ast.While, ast.Try)):
+            return ["self", "calls"]
+        return TBlock.special_assigned(self, st)
+
+    def special_stmt(self, st, rest, env, go):
+        if isinstance(st, ast.Try) and not self.in_try:
+            if st.orelse or st.finalbody or len(st.handlers) != 1 or ast.unparse(st.handlers[0].type) != "StopIteration" or st.handlers[0].name:
+                raise Reject("try statement not understood")
+            self.handler, self.after_try = st.handlers[0].body, rest
+            self.in_try += 1
+            t = self.block(list(st.body), env, lambda e: self.outcome(e, "TNormal"), 1)
+            self.in_try -= 1
+            return t
+        if isinstance(st, ast.If) and ast.unparse(st.test) == NON_INTERPOLATING and self.in_try:
+            # the model is the non-interpolating branch (interpolate is None / INTERPOLATION_NONE): the else branch is Sched/Interp.v's
+            if rest:
+                raise Reject("statements after the interpolation switch")
+            return self.block(list(st.body), env, self.k_now, 1)
+        if isinstance(st, ast.If) and st.body and isinstance(st.body[0], ast.While):
+            self.guard = ast.dump(st.test)
+            return None
+        if isinstance(st, ast.While) and self.in_try:
+            if st.orelse or self.guard != ast.dump(st.test):
+                raise Reject("the while loop is not guarded by an if with the same test")
+            self.guard = None
+            if [ast.unparse(b).split(" = ")[0].split(" += ")[0] for b in st.body] != ["self.current_event", "self.next_event_time"] \
+                    or ast.unparse(st.body[0]) != "self.current_event = self.get_next_event()":
+                raise Reject("loop body not understood")
+            c, g = self.ex_g(st.test, {"self": ("track", "self")})
+            if c[0] != "bool" or g != "true":
+                raise Reject("while test not understood")
+            inner = {"self": ("track", "self"), "self.current_event": ("event", "ev")}
+            body = self.block(list(st.body[1:]), inner, lambda e: "src_track_tick_loop fuel %s (Some ev)" % e["self"][1], 1)
+            self.aux.append(
+                "(* the loop `while %s:` of Track.tick; get_next_event may raise *)\n"
+                "Fixpoint src_track_tick_loop (fuel : nat) (self : track_t) (current_event : option event) : pulled * track_t :=\n"
+                "  match fuel with\n  | O => (POutOfFuel, self)\n  | S fuel =>\n  if %s then\n"
+                "    match src_track_get_next_event self with\n    | (GStop, self) => (PStop, self)\n    | (GRaise, self) => (PRaise, self)\n"
+                "    | (GEvent ev, self) => %s\n    end\n  else (PDone current_event, self)\n  end." % (ast.unparse(st.test), c[1], body))
+            e2 = {key: val for key, val in env.items() if not key.startswith("self.")}
+            e2["self"] = ("track", "self")
+            e2["current_event"] = ("optevent", "current_event")
+            return ("match src_track_tick_loop (fuel cfg) %s None with\n  | (PDone current_event, self) => %s\n  | (PStop, self) => %s\n  | (PRaise, self) => %s\n  | (POutOfFuel, self) => %s\n  end"
+                    % (env["self"][1], go(e2), self.outcome(e2, "TStop"), self.outcome(e2, "TRaise"), self.outcome(e2, "TOutOfFuel")))
+        if ast.unparse(st) == "self.perform_event(self.current_event)" and self.in_try:
+            if env.get("current_event", ("?",))[0] != "optevent":
+                raise Reject("perform_event of an event that the loop did not deliver")
+            e2 = dict(env)
+            e2["self"], e2["calls"] = ("track", "self"), ("calls", "calls")
+            # Model.v perform_event (trusted glue): the device calls, or the request to run a callback
+            return ("match current_event with\n  | None => %s\n  | Some ev =>\n    let '(self, c, n, pf) := perform_event (dev_fail cfg) nowT %s ev n in\n    let calls := (%s ++ c) in\n"
+                    "    match pf with PfOk => %s | PfRaise => %s | PfCallback cb => %s end\n  end"
+                    % (go(env), env["self"][1], env["calls"][1], go(e2), self.outcome(e2, "TRaise"), self.outcome(e2, "TCallback cb")))
+        return TBlock.special_stmt(self, st, rest, env, go)
+
+
+class TrackTickEndBlock(TBlock):
+    def classify(self, st, env):
+        if ast.unparse(st) == TRACK_ADVANCE:
+            return ["self"], lambda env, go: self.rebind("self", "track", "(w_t_cur %s ((t_cur %s) + tau cfg))" % (env["self"][1], env["self"][1]), env, go)
+        return TBlock.classify(self, st, env)
+
+
+def gen_track_tick(cls):
+    fn = method(cls, "tick")
+    forbid(fn, BAD + (ast.Lambda,))
+    signature(fn, 1)
+    a = TrackTickBlock(fn, reserved=RESERVED | {"ev", "fuel", "nowT", "n", "pf", "cb", "perform_event", "current_event"})
+    a.aux = []
+    first = a.run(body_of(fn), {"self": ("track", "self"), "calls": ("calls", "[]")}, lambda e: (_ for _ in ()).throw(Reject("Track.tick has no try statement")))
+    if len(a.aux) != 1:
+        raise Reject("Track.tick: the event loop was not found")
+    # the second half: `except StopIteration:` body (when a StopIteration was raised), then the statements after the try
+    b = TrackTickEndBlock(fn)
+    env = {"self": ("track", "self")}
+    after = lambda e: b.run(list(a.after_try), e, lambda e2: e2["self"][1])
+    if not a.after_try:
+        raise Reject("Track.tick: nothing after the try statement")
+    second = "if stopped then %s else %s" % (b.run(list(a.handler) + list(a.after_try), env, lambda e: e["self"][1]), after(env))
+    return a.aux[0], first, second, lines_of(fn)
+
+
 def writers():
     out = []
     for f in TRACK_ORDER:
@@ -723,6 +842,12 @@ def main(out_path):
     aux, term, lines = gen_timeline_tick(tl)
     defs.append("(* Timeline.tick, timeline.py lines %s: the bodies of its three loops (note-offs, actions, tracks) *)\n%s" % (lines, aux))
     defs.append("(* Timeline.tick, timeline.py lines %s *)\nDefinition src_timeline_tick (cfg : config) (self : timeline_t) : timeline_t * list call * opres :=\n  %s." % (lines, term))
+    loop, first, second, lines = gen_track_tick(track)
+    defs.append(loop)
+    defs.append("(* Track.tick, track.py lines %s: from the start to the end of the try body (non-interpolating branch) *)\n"
+                "Definition src_track_tick_a (cfg : config) (nowT : Z) (self : track_t) (n : nat) : track_t * list call * nat * ticked :=\n  %s." % (lines, first))
+    defs.append("(* Track.tick: the handler `except StopIteration:` (if stopped) and the statements after the try *)\n"
+                "Definition src_track_tick_b (cfg : config) (self : track_t) (stopped : bool) : track_t :=\n  %s." % second)
     text = ("(* GENERATED by harness/gen_tables_track.py from the source text of isobar/timelines/track.py and timeline.py.  Do not edit.\n"
             "   Method bodies rendered over the record types of Sched/Model.v; reading of the data: Sched/SrcGlue.v, docs/TRANSLATOR3.md. *)\n"
             "From Isobar Require Import Base.Prelude Sched.Model Sched.SrcGlue.\nLocal Open Scope Z_scope.\n\n"
